@@ -105,7 +105,8 @@ Definition keep_oracle (t : tbl) (names : list string) (o : obs) : bool :=
 
 (* ---- z: shape only (mean 0 / std 1 are checked with a tolerance on the Python side) *)
 Definition z_oracle (kd : kind) (cs : list val) (o : obs) : bool :=
-  match o with OCol k' out => kind_eqb kd k' && z_shape cs out | _ => false end.
+  (* z scores of an IntColumn are returned as a FloatColumn *)
+  match o with OCol k' out => kind_eqb (match kd with KInt => KFloat | _ => kd end) k' && z_shape cs out | _ => false end.
 
 (* ---- the source is not modified *)
 Definition unchanged (before after : tbl) : bool := tbl_same before after.
